@@ -75,6 +75,8 @@ func histVec(r *rand.Rand, dim int, style int) []float32 {
 			v[i] = coordPool[r.Intn(len(coordPool))]
 		case 1:
 			v[i] = float32(r.NormFloat64())
+		case 3: // fine scale: near-duplicates of the pool values, a few 1e-4 apart (distances far below 1e-6 that are NOT ties)
+			v[i] = coordPool[r.Intn(len(coordPool))] + float32(r.Intn(5)-2)/8192
 		default:
 			v[i] = rndF32(r)
 		}
@@ -90,6 +92,7 @@ type vecHistOpts struct {
 	trainFirst bool
 	ntrain     int
 	gauss      bool
+	fine       bool // near-duplicate coordinates (style 3 of histVec)
 }
 
 type liveVec struct {
@@ -106,6 +109,9 @@ func runVecHistory(r *rand.Rand, p vecParams, o vecHistOpts, t *Trace) *Case {
 	c := p.header(NewCase(200))
 	var ops []func(c *Case)
 	style := r.Intn(3)
+	if o.fine {
+		style = 3
+	}
 	if o.gauss {
 		style = 1
 	}
